@@ -54,7 +54,7 @@ def run_units(specs, tier, seed):
     with cf.ThreadPoolExecutor(max_workers=min(6, max(1, len(specs)))) as ex:
         futs = {}
         for i, (mod, kw) in enumerate(specs):
-            futs[ex.submit(verify_unit, mod, tier, seed, None, True, kw.get("profile", ""), **kw)] = i
+            futs[ex.submit(verify_unit, mod, tier, seed, None, True, "-".join(str(v) for v in kw.values()), **kw)] = i
         for f in cf.as_completed(futs):
             results[futs[f]] = f.result()
     return results
@@ -269,7 +269,7 @@ def replay(pid, path):
     import props
     cfg = props.PROPS[pid]
     for mod, kw in cfg["units"]:
-        r = verify_unit(mod, "quick", None, None, False, kw.get("profile", ""), **kw)
+        r = verify_unit(mod, "quick", None, None, False, "-".join(str(v) for v in kw.values()), **kw)
         if r.name != doc.get("unit"):
             continue
         for c in r.failures:
